@@ -33,10 +33,19 @@ def run(ctx):
 
     # ------------------------------------------------------------------ C08-chokepoint
     ctx.rule("C08-chokepoint", "every calling context applies procedures through apply_procedure")
+    callers_ = fb.callers("lib")
+
+    def only_from_apply(nm, depth=4):
+        # apply_procedure, or a helper all of whose callers are (a piece extracted from it: it runs under its checks)
+        nm = nm.split("::{closure")[0]
+        if nm == ap.name:
+            return True
+        cs = {x.split("::{closure")[0] for x in callers_.get(nm, ())} - {nm}
+        return depth > 0 and bool(cs) and all(only_from_apply(x, depth - 1) for x in cs)
     for target, allowed in ((asp.name, {ap.name}), (bpa.name, {ap.name})):
         for f, b, t in fb.call_sites(lambda t: callee(t) == target):
             ctx.inst("C08-chokepoint", "%s<-%s" % (target.rsplit("::", 1)[-1], f.name))
-            if f.name not in allowed:
+            if f.name not in allowed and not only_from_apply(f.name):
                 ctx.report("C08-chokepoint", "%s/caller/%s" % (target.rsplit("::", 1)[-1], f.name),
                            "%s is called from %s, bypassing apply_procedure's checks" % (target, f.name), where_of(f, t))
     # indirect calls of builtin bodies: fn(ArgVec)->Result<Value> / dyn Fn(ArgVec, Rc<Env>)
@@ -52,7 +61,7 @@ def run(ctx):
                         ctx.report("C08-chokepoint", "indirect/%s" % f.name, "a builtin body is invoked through a pointer "
                                    "outside BuiltinProcedureBody::apply", where_of(f, t))
     napply = fb.find("interpreter::library::native::base::apply")
-    if not any(callee(t) == ap.name for _, t in napply.calls()):
+    if ap.name not in fb.reachable_from([napply.name]):
         ctx.report("C08-chokepoint", "builtin-apply", "the apply builtin does not go through apply_procedure", where_of(napply))
     ctx.floor("C08-chokepoint", 4)
 
